@@ -11,7 +11,8 @@
 EXTENDS VersSem
 
 CONSTANTS K,            \* number of bound positions (bounds at 1,3,..,2K-1; probes 0..2K)
-          Schemes       \* the schemes to render vectors for
+          Schemes,      \* the schemes to render vectors for
+          ChainNo       \* which family of concrete chains renders the vectors (1 or 2)
 
 \* strictly increasing chains of 17 concrete versions per scheme (position p <-> chain[p + 1]);
 \* strict monotonicity under the real Compare is re-checked by every run (else exit 2)
@@ -32,6 +33,29 @@ Chain(s) ==
                          "2.0.1", "2.1.0", "3.0.0", "3.0.1", "10.0.0", "10.1.0", "11.0.0", "12.0.0">>
     [] s = "alpine" -> <<"0.9", "1.0_alpha1", "1.0_rc1", "1.0", "1.0-r1", "1.0_p1", "1.1", "1.10", "2.0_beta1", "2.0",
                          "2.0-r1", "2.1", "3.0", "3.0.1", "10.0", "10.1", "11.0">>
+\* second family: the same idea with other spellings - build metadata (with an "x" in it), prefixes, explicit zero
+\* epochs, letter case, hyphen vs dot, and for pypi pre-/dev-releases as bounds and probes
+SemverChain2 == <<"0.1.0", "0.2.0+x64", "1.0.0-alpha", "1.0.0-beta.2+exp.sha.5114f85", "1.0.0", "1.0.1+build.X", "1.1.0", "1.10.0+linux.x86-64",
+                  "2.0.0-rc.1", "2.0.0+x", "2.0.1", "2.1.0+001", "3.0.0", "3.0.1+b", "10.0.0", "10.1.0", "11.0.0">>
+Chain2(s) ==
+  CASE s \in {"cargo", "generic"} -> SemverChain2
+    [] s \in {"npm", "nuget"} -> [i \in 1..17 |-> IF i \in {2, 3, 8, 11} THEN "v" \o SemverChain2[i] ELSE SemverChain2[i]]
+    [] s = "golang" -> [i \in 1..17 |-> IF i % 2 = 0 THEN SemverChain[i] ELSE "v" \o SemverChain[i] \o (IF i \in {5, 10, 13} THEN "+incompatible" ELSE "")]
+    [] s = "pypi"   -> <<"0.1", "1.0a1", "1.0rc1", "1.0", "1.0.post1", "1.1", "2.0.dev2", "2.0", "2.0.post1", "2.1", "3.0a1", "3.0",
+                         "3.0.1", "10.0", "10.1", "11.0", "1!0.1">>
+    [] s = "deb"    -> <<"0:0.9", "1.0~rc1", "0:1.0", "1.0-1", "1.0-1+b1", "1.0.1", "0:1.1", "1.10", "2.0~beta1", "2.0", "0:2.0-1",
+                         "2.0+dfsg-1", "2.1", "3.0", "10.0", "1:0.1", "01:1.0">>
+    [] s = "rpm"    -> <<"0:0.9", "1.0~rc1", "0:1.0", "1.0-1.el8", "1.0-2.el8", "1.0.1", "0:1.1", "1.10", "2.0~beta1", "2.0",
+                         "0:2.0-1", "2.0-2", "2.1", "3.0", "10.0", "1:0.1", "1:1.0">>
+    [] s = "maven"  -> <<"0.9", "1.0-ALPHA-1", "1.0-Beta-1", "1.0-RC1", "1.0.Final", "1.0.1", "1.1-ga", "1.10", "2.0-snapshot",
+                         "2.0", "2.0.1", "2.1", "3.0", "3.0.1", "10.0", "10.1", "11.0">>
+    [] s = "gem"    -> <<"0.9", "1.0.0-alpha", "1.0.0-beta", "1.0", "1.0.1", "1.1", "1.10.0", "2.0.0-rc1", "2", "2.0.1", "2.1.0",
+                         "3.0.0", "3.0.1", "10.0.0", "10.1.0", "11.0.0", "12">>
+    [] s = "alpine" -> <<"0.9", "1.0_alpha1", "1.0_rc1", "1.0", "1.0-r1", "1.0_p1", "1.1", "1.10", "2.0_beta1", "2.0",
+                         "2.0-r1", "2.1", "3.0", "3.0.1", "10.0", "10.1", "11.0">>
+\* chain positions (0-based) holding a pypi pre-/dev-release in the second family
+PypiPrePos2 == {1, 2, 6, 10}
+TheChain(s) == IF ChainNo = 1 THEN Chain(s) ELSE Chain2(s)
 AllSchemes == {"alpine", "cargo", "deb", "gem", "generic", "golang", "maven", "npm", "nuget", "pypi", "rpm"}
 
 VARIABLES ops,      \* the range: ops[j] is the comparator on bound j (position 2j-1), "" if the bound is unused
@@ -93,5 +117,5 @@ SingleIsComparator == (phase = "done" /\ Cardinality({j \in 1..K : ops[j] # ""})
 \* rendering
 RECURSIVE JoinBar(_)
 JoinBar(q) == IF q = <<>> THEN "" ELSE IF Len(q) = 1 THEN q[1] ELSE q[1] \o "|" \o JoinBar(Tail(q))
-VersText(s, cs) == "vers:" \o s \o "/" \o JoinBar([i \in 1..Len(cs) |-> cs[i].op \o Chain(s)[cs[i].pos + 1]])
+VersText(s, cs) == "vers:" \o s \o "/" \o JoinBar([i \in 1..Len(cs) |-> cs[i].op \o TheChain(s)[cs[i].pos + 1]])
 =============================================================================
